@@ -1,15 +1,19 @@
 #!/usr/bin/env python3
-"""Apply a seeded patch to /repo, run checks, undo.  usage: try_seed.py <patch> Cxx[,Cyy] [tier]"""
-import subprocess, sys
+"""Apply a seeded patch to a scratch worktree of /repo HEAD, run checks against it (VERIF_REPO), remove the worktree.
+usage: try_seed.py <patch> Cxx[,Cyy] [tier]      (/repo itself is not touched)"""
+import os, subprocess, sys
 patch, props = sys.argv[1], sys.argv[2]
 tier = sys.argv[3] if len(sys.argv) > 3 else "quick"
-assert subprocess.run(["git", "-C", "/repo", "status", "--porcelain", "--untracked-files=no"], capture_output=True, text=True).stdout == "", "repo dirty"
-a = subprocess.run(["git", "-C", "/repo", "apply", __import__("os").path.abspath(patch)], capture_output=True, text=True)
-if a.returncode:
-    print("APPLY FAILED", a.stderr); sys.exit(3)
+wt = "/tmp/vs/try-%d" % os.getpid()
+os.makedirs("/tmp/vs", exist_ok=True)
+subprocess.run(["git", "-C", "/repo", "worktree", "add", "--detach", wt, "HEAD"], check=True, capture_output=True)
 try:
+    a = subprocess.run(["git", "-C", wt, "apply", os.path.abspath(patch)], capture_output=True, text=True)
+    if a.returncode:
+        print("APPLY FAILED", a.stderr); sys.exit(3)
     for prop in props.split(","):
-        r = subprocess.run(["/verif/check", prop, tier], capture_output=True, text=True, env=dict(__import__("os").environ, VERIF_EVIDENCE_DIR="/verif/.work/evidence-scratch"))
+        r = subprocess.run(["/verif/check", prop, tier], capture_output=True, text=True,
+                           env=dict(os.environ, VERIF_REPO=wt, VERIF_EVIDENCE_DIR="/verif/.work/evidence-scratch"))
         lines = r.stdout.strip().splitlines()
         v = [l for l in lines if l.startswith("VIOLATION")]
         print(f"[{prop}] exit={r.returncode} violations={len(v)} :: {lines[-1][:160] if lines else ''}")
@@ -19,5 +23,4 @@ try:
                 if l.startswith("  kind"):
                     break
 finally:
-    subprocess.run(["git", "-C", "/repo", "checkout", "--", "."])
-    assert subprocess.run(["git", "-C", "/repo", "status", "--porcelain", "--untracked-files=no"], capture_output=True, text=True).stdout == ""
+    subprocess.run(["git", "-C", "/repo", "worktree", "remove", "--force", wt], capture_output=True)
